@@ -49,6 +49,33 @@ class _Handle:
         return self.error is None
 
 
+def _library_generators():
+    """generator objects held at module level by the library (a forked worker inherits a COPY of each of them, exactly as it inherits
+    the state of the global generators)"""
+    import sys
+
+    out = []
+    for name, mod in list(sys.modules.items()):
+        if name == "atomica" or name.startswith("atomica."):
+            for k, v in list(vars(mod).items()):
+                if isinstance(v, (np.random.Generator, np.random.RandomState)) and not any(v is g for g in out):
+                    out.append(v)
+    return out
+
+
+def _gstate(g):
+    import copy
+
+    return copy.deepcopy(g.bit_generator.state if isinstance(g, np.random.Generator) else g.get_state())
+
+
+def _gset(g, st):
+    if isinstance(g, np.random.Generator):
+        g.bit_generator.state = st
+    else:
+        g.set_state(st)
+
+
 class VPool:
     schedule = None  # set by the explorer before the library creates the pool
     log = None
@@ -58,23 +85,31 @@ class VPool:
         self.jobs = []
         self.np_state = np.random.get_state()
         self.py_state = random.getstate()
+        self.gens = _library_generators()
+        self.gen_states = [_gstate(g) for g in self.gens]
         self.workers = []
         for w in range(self.n):
-            ctx = dict(np=self.np_state, py=self.py_state)
+            ctx = dict(np=self.np_state, py=self.py_state, gens=[_gstate(g) for g in self.gens])
             if initializer is not None:
                 self._in_worker(ctx, initializer, initargs, {})
             self.workers.append(ctx)
 
     def _in_worker(self, ctx, fn, args, kwargs):
         save_np, save_py = np.random.get_state(), random.getstate()
+        save_g = [_gstate(g) for g in self.gens]
         np.random.set_state(ctx["np"])
         random.setstate(ctx["py"])
+        for g, st in zip(self.gens, ctx["gens"]):
+            _gset(g, st)
         try:
             return fn(*args, **kwargs)
         finally:
             ctx["np"], ctx["py"] = np.random.get_state(), random.getstate()
+            ctx["gens"] = [_gstate(g) for g in self.gens]
             np.random.set_state(save_np)
             random.setstate(save_py)
+            for g, st in zip(self.gens, save_g):
+                _gset(g, st)
 
     def apply_async(self, func, args=(), kwds=None, callback=None, error_callback=None):
         h = _Handle()
